@@ -16,7 +16,8 @@ RULE = ('per configuration (handler- or swapper-backed grid, shape, process grid
         'rank and leave the state unchanged; canonical key = (layout, notSaved, saved (pattern, layout) according to the model AND as actually held in the save buffer, buffer-index permutation, live '
         'pattern, swapper manager) per rank; dead buffer regions are NaN-poisoned before every operation so merged states have equal '
         'futures; search runs to closure (no new key), which covers histories of any length; non-trivial = transition that moves data '
-        'between ranks or touches the save')
+        'between ranks or touches the save; plus, per process grid, two managers with the same layout names and other orderings, one grid each, '
+        'moved in lockstep through every ordered pair of layouts')
 ASSUMPTIONS = ['Grid keeps its state in _my_data/_dataIdx/_buffIdx/_saveIdx/notSaved/_savedLayout (used for poisoning dead regions and for the state key only)',
                'the layout code has no data-dependent control flow, so NaN is a faithful representative of arbitrary dead data',
                'simmpi collectives']
@@ -57,12 +58,81 @@ def cases(tier, seed):
                         if save and dtype == 'float64' and g in (((1, 2),) if tier == 'quick' else ((1, 2), (2, 2))) and shape == shapes[kind][0] and (kind == 'swapper3' or tier == 'thorough'):
                             out.append({'kind': kind, 'shape': shape, 'grid': list(g), 'save': save, 'dtype': dtype, 'shared': True,
                                         'cost': 500 * g[0] * g[1]})
+    # two managers in one process that give the same layout names other dimension orderings, one grid on each, moved in lockstep through
+    # every ordered pair of layouts (whichever manager moves first): nothing a manager remembers may be keyed by the names alone
+    for kind in ('handler4', 'swapper3'):
+        for g in grids:
+            shape = [4, 4, 5, 4] if kind == 'handler4' else [5, 6, 7]
+            if (kind == 'handler4' and (min(shape[0], shape[3]) < g[0] or min(shape[2], shape[3]) < g[1])) or (kind == 'swapper3' and (min(shape[0], shape[1]) < g[0] or min(shape[2], shape[1]) < g[1])):
+                continue
+            out.append({'kind': 'twomanagers', 'base': kind, 'shape': shape, 'grid': list(g), 'save': False, 'dtype': 'float64', 'cost': 100 * g[0] * g[1]})
     for g in ([(2, 2)] if tier == 'quick' else [(2, 2), (2, 3), (3, 2)]):
         out.append({'kind': 'swapper4long', 'shape': [3, 4, 5, 4] if tier == 'quick' else [4, 5, 7, 6], 'grid': list(g), 'save': True, 'dtype': 'float64', 'cost': 2500})
     return out
 
 
+PHYS_ALIAS = {'flux_surface': [0, 2, 1, 3], 'v_parallel': [0, 3, 1, 2], 'poloidal': [3, 2, 1, 0]}
+LP_ALIAS = {'v_parallel_2d': [1, 2, 0], 'mode_solve': [0, 2, 1]}
+
+
+def _two_managers(case):
+    import numpy as np
+    from pgv import simmpi, lay
+    from pygyro.model.layout import getLayoutHandler, LayoutSwapper
+    from pygyro.model.grid import Grid
+    MPI = simmpi.install()
+    shape = case['shape']
+    nprocs = list(case['grid'])
+    size = nprocs[0] * nprocs[1]
+    eta = lay.eta_for(shape)
+    PAT = [lay.global_array(shape, np.float64, k) for k in range(2)]
+    if case['base'] == 'handler4':
+        names, start = list(PHYS), 'flux_surface'
+    else:
+        names, start = list(LP) + list(LV) + list(LPOL), 'mode_solve'
+    pairs = [(a, b) for a in names for b in names if a != b]
+
+    def fn(r):
+        comm = MPI.COMM_WORLD
+        if case['base'] == 'handler4':
+            mans = [getLayoutHandler(comm, dict(PHYS), nprocs, eta), getLayoutHandler(comm, dict(PHYS_ALIAS), nprocs, eta)]
+        else:
+            mans = [LayoutSwapper(comm, [dict(LP), dict(LV), dict(LPOL)], [nprocs, nprocs[0], nprocs[1]], eta, start),
+                    LayoutSwapper(comm, [dict(LP_ALIAS), dict(LV), dict(LPOL)], [nprocs, nprocs[0], nprocs[1]], eta, start)]
+        gs = [Grid(eta, [None] * len(shape), m, start, comm, dtype=np.float64) for m in mans]
+        for k, g in enumerate(gs):
+            g.getAllData()[:] = lay.block(PAT[k], g.getLayout(start))
+        viol = []
+        moves = 0
+        for i, (a, b) in enumerate(pairs):
+            for target in (a, b):
+                for k in ((0, 1) if i % 2 == 0 else (1, 0)):
+                    g = gs[k]
+                    if g.currentLayout != target:
+                        g.setLayout(target)
+                        moves += 1
+                    if g.currentLayout != target or not lay.same(np.asarray(g.getAllData()), lay.block(PAT[k], g.getLayout(target))):
+                        viol.append('grid of manager %d wrong in layout %s (pair %s->%s)' % (k, target, a, b))
+        return viol, moves
+    vio = {}
+    moves = 0
+    try:
+        w = simmpi.World(size)
+        res = w.run(fn)
+        for rnk, (viol, mv) in enumerate(res):
+            moves = max(moves, mv)
+            for v in viol[:1]:
+                vio.setdefault('wrong:two-managers-same-names', {'sig': 'wrong:two-managers-same-names', 'what': 'rank %d: %s (%s shape %r grid %r)' % (rnk, v, case['base'], shape, nprocs), 'detail': {}})
+    except Exception as e:  # noqa
+        sig = 'exception:two-managers:' + type(e).__name__
+        vio[sig] = {'sig': sig, 'what': 'two managers with the same layout names: %s: %s (%s shape %r grid %r)' % (type(e).__name__, e, case['base'], shape, nprocs), 'detail': {}}
+    return {'evals': moves, 'nontrivial': moves if size > 1 else 0, 'violations': list(vio.values()),
+            'stats': {'states': len(names) ** 2, 'transitions': moves}, 'sample': {'ordered_pairs': len(pairs), 'moves': moves}}
+
+
 def run_case(case):
+    if case['kind'] == 'twomanagers':
+        return _two_managers(case)
     import numpy as np
     from pgv import simmpi, lay
     from pygyro.model.layout import getLayoutHandler, LayoutSwapper
